@@ -65,7 +65,9 @@ Init0 == [ps |-> <<>>, r1 |-> <<>>, r2 |-> <<>>, lost |-> Zero3, used |-> Zero3,
 
 \* prime indices (1-based) examined for each report: all of them, or for the largest bases all primes
 \* of the bucket classes and one in eight of the others
+\* ("top": bases above 2^16 primes - the primes whose index does not fit 16 bits, their aliases below, one in 16)
 Examined(s) == IF s.check = "all" THEN 1..Len(s.ps)
+               ELSE IF s.check = "top" THEN {j \in 1..Len(s.ps) : j > 65000 \/ j <= 6000 \/ j % 16 = 0}
                ELSE {j \in 1..Len(s.ps) : s.ps[j] >= 32768 \/ j % 8 = 0}
 
 Hit(s, pos, j) == LET m == pos % s.ps[j] IN m = s.r1[j] \/ m = s.r2[j]
